@@ -18,6 +18,8 @@ Deflate(bytes) == PrimCall("deflate", <<bytes>>)
 InflateR(bytes) == PrimCall("inflate", <<bytes>>)          \* [ok, out]
 Inflate(bytes) == InflateR(bytes).out
 MD5(bytes)     == PrimCall("md5", <<bytes>>)
+\* MD5 applied `times` times, each time to the first n bytes of the previous value (the loop itself, nothing else)
+MD5Times(bytes, times, n) == IF times = 0 THEN bytes ELSE PrimCall("md5-times", <<bytes, times, n>>)
 SHA256(bytes)  == PrimCall("sha256", <<bytes>>)
 SHA384(bytes)  == PrimCall("sha384", <<bytes>>)
 SHA512(bytes)  == PrimCall("sha512", <<bytes>>)
@@ -25,4 +27,8 @@ AesEcbEnc(key, blocks) == PrimCall("aes-ecb-enc", <<key, blocks>>)
 AesEcbDec(key, blocks) == PrimCall("aes-ecb-dec", <<key, blocks>>)
 AesCbcEncNoPad(key, iv, bytes) == PrimCall("aes-cbc-enc-nopad", <<key, iv, bytes>>)
 AesCbcDecNoPad(key, iv, bytes) == PrimCall("aes-cbc-dec-nopad", <<key, iv, bytes>>)
+\* AES-CBC (no padding) of `unit` repeated `reps` times; the ciphertext stays with the helper under `tag`, only
+\* [head (first 16 bytes), last (last byte), len] come back; ShaBuf hashes that buffer
+AesCbcRep(key, iv, unit, reps, tag) == PrimCall("aes-cbc-rep", <<key, iv, unit, reps, tag>>)
+ShaBuf(alg, tag) == PrimCall("sha-buf", <<alg, tag>>)
 =============================================================================
